@@ -149,6 +149,10 @@ def vectors(src, ctx: Ctx, rng):
             if quick and (n + j) % 3 and n not in (0, 1, 2, 3, 127, 128, 129, 199, 200):
                 continue
             ev.append(src.enc({"type": "DATA", "frm": n % 8, "retx": j % 2, "ack": (n + j) % 8, "pl": pl}, False))
+            if not quick:                   # thorough: every length again with fresh random contents and every control-field residue
+                for r in range(6):
+                    ev.append(src.enc({"type": "DATA", "frm": (n + r) % 8, "retx": r % 2, "ack": (n * 3 + r) % 8,
+                                       "pl": [rng.randrange(256) for _ in range(n)]}, r == 5))
     for ty in ("ACK", "NAK"):
         for res in (0, 1):
             for nrdy in (0, 1):
@@ -162,7 +166,7 @@ def vectors(src, ctx: Ctx, rng):
     # classification: all 256 control bytes, valid CRC, data lengths 0..3
     for c in range(256):
         for n in range(4):
-            for variant in range(1 if quick else 3):
+            for variant in range(1 if quick else 8):
                 data = [2, 11, 7][:n] if variant == 0 else [rng.randrange(256) for _ in range(n)]
                 body = bytes([c] + data)
                 crc = ashref.crc16(body)
@@ -176,7 +180,7 @@ def vectors(src, ctx: Ctx, rng):
              {"type": "DATA", "frm": 0, "retx": 0, "ack": 0, "pl": [0x7E]},
              {"type": "DATA", "frm": 7, "retx": 0, "ack": 7, "pl": [0x00, 0x42, 0x21]}]
     if not quick:
-        for _ in range(40):
+        for _ in range(200):
             bases.append({"type": "DATA", "frm": rng.randrange(8), "retx": rng.randrange(2), "ack": rng.randrange(8),
                           "pl": [rng.randrange(256) for _ in range(rng.randrange(0, 4))]})
     for f in bases:
@@ -194,11 +198,11 @@ def vectors(src, ctx: Ctx, rng):
                 ev.append(src.parse(bytes(y)))
     # stuffing over a reserved-rich alphabet
     alpha = RES + [0x5E, 0x5D, 0x31, 0x00]
-    for n in range(0, 3 if quick else 4):
+    for n in range(0, 3 if quick else 5):
         for s in itertools.product(alpha, repeat=n):
             ev.append(src.stuff(list(s)))
             ev.append(src.unstuff(list(s)))
-    for _ in range(50 if quick else 400):
+    for _ in range(50 if quick else 20000):
         s = [rng.choice(alpha + [rng.randrange(256)]) for _ in range(rng.randrange(1, 40))]
         ev.append(src.stuff(s))
         ev.append(src.unstuff(s))
